@@ -10,7 +10,11 @@ source (in memory, like tools/mutate_proved.py) and the verdict rule of checks/p
   degraded   the proof no longer goes through (invariants name the old locals, ...): PROOF-DEGRADED, the bounded tier decides - fine
   proved     every obligation still discharges (the contract does not depend on the names)
 
-Usage:  PYTHONPATH=/verif .venv312/bin/python tools/harmless_campaign.py [--only SUBSTR] [--jobs 12] [--out FILE]
+Other edit kinds (environment HARMLESS_EDIT): `shift` - two comment lines inserted at the top of the body (every line number of the
+function moves: loop contracts are keyed by ordinal + recorded header, obligation keys carry no line numbers); `range0` - every
+range(e) becomes range(0, e).  Same classification.
+
+Usage:  [HARMLESS_EDIT=rename|shift|range0] PYTHONPATH=/verif .venv312/bin/python tools/harmless_campaign.py [--only SUBSTR] [--jobs 12] [--out FILE]
 Exit 1 iff some ALARM was found.
 """
 import ast
@@ -56,6 +60,38 @@ def renamed_source(src, fn):
     return data.decode(), locals_
 
 
+def shifted_source(src, fn):
+    """two comment lines inserted right after the def line (every statement of the function moves down)"""
+    lines = src.splitlines(keepends=True)
+    first = fn.body[0]
+    at = first.lineno - 1
+    indent = ' ' * first.col_offset
+    lines[at:at] = [indent + '# harmless edit: a comment\n', indent + '# and another one\n']
+    return ''.join(lines), ['<two comment lines>']
+
+
+def range0_source(src, fn):
+    """range(e) -> range(0, e) everywhere in the function"""
+    lines = src.splitlines(keepends=True)
+
+    def off(l, c):
+        return sum(len(x.encode()) for x in lines[:l - 1]) + c
+    data = src.encode()
+    edits = []
+    for n in ast.walk(fn):
+        if isinstance(n, ast.Call) and isinstance(n.func, ast.Name) and n.func.id == 'range' and len(n.args) == 1 and not n.keywords:
+            a = off(n.args[0].lineno, n.args[0].col_offset)
+            edits.append((a, a, b'0, '))
+    if not edits:
+        return None, []
+    for a, b, t in sorted(edits, reverse=True):
+        data = data[:a] + t + data[b:]
+    return data.decode(), ['range(e) -> range(0, e) x{}'.format(len(edits))]
+
+
+EDITS = {'rename': None, 'shift': shifted_source, 'range0': range0_source}
+
+
 def worker(rel, qual):
     from pyvc import engine, solve, run as pyrun
     from vlib import core
@@ -66,8 +102,9 @@ def worker(rel, qual):
     repo = engine.Repo(core.REPO)
     fn = repo.find(srel, squal)
     src = repo.module(srel)['src']
-    msrc, names = renamed_source(src, fn)
-    res = {'rel': rel, 'qual': qual, 'renamed': names}
+    kind = os.environ.get('HARMLESS_EDIT', 'rename')
+    msrc, names = (EDITS[kind] or renamed_source)(src, fn)
+    res = {'rel': rel, 'qual': qual, 'edit': kind, 'renamed': names}
     if msrc is None:
         res.update(verdict='nolocals')
         print(json.dumps(res))
